@@ -6,8 +6,8 @@ import (
 	"testing"
 	"time"
 
-	"github.com/alibaba/RedisShake/pkg/simrt/tape"
 	. "github.com/alibaba/RedisShake/pkg/simrt"
+	"github.com/alibaba/RedisShake/pkg/simrt/tape"
 )
 
 // toy system: producer -> chan -> consumer, ticker, mutex, cond, forever-blocked task
